@@ -37,6 +37,25 @@ def wrap(e):
     return SReal(e)
 
 
+def narrow(dt):
+    dt = np.dtype(dt)
+    return dt.kind in "iu" and dt.itemsize < 8
+
+
+def wrap_to(e, dt):
+    """two's-complement wrap-around of a mathematical integer stored in an 8/16/32-bit integer dtype (numpy's
+    silent behaviour for array arithmetic and array-to-array assignment); 64-bit dtypes stay mathematical"""
+    dt = np.dtype(dt)
+    if not narrow(dt) or not z3.is_expr(e) or not z3.is_int(e):
+        return e
+    info = np.iinfo(dt)
+    lo, hi = int(info.min), int(info.max)
+    m = hi - lo + 1
+    if z3.is_int_value(e):
+        return z3.IntVal((e.as_long() - lo) % m + lo)
+    return _simp(z3.If(z3.And(e >= lo, e <= hi), e, (e - lo) % m + lo))
+
+
 def nz(x):
     return x if z3.is_bool(x) else x != 0
 
@@ -91,7 +110,11 @@ class SArr:
         return SArr(self.c.copy(), self.dtype)
 
     def astype(self, dt, copy=True):
-        return SArr(self.c.copy(), dt)
+        c = self.c.copy()
+        if narrow(dt):
+            for idx in np.ndindex(*c.shape):
+                c[idx] = wrap_to(c[idx], dt)
+        return SArr(c, dt)
 
     def flatten(self):
         return SArr(self.c.flatten(), self.dtype)
@@ -151,16 +174,28 @@ class SArr:
     def __ge__(self, o):
         return self._ew(o, lambda a, b: a >= b, np.bool_)
 
+    def _arith(self, o, f):
+        """arithmetic in the array's own dtype (a Python int operand is 'weak' under NEP 50; a wider array operand
+        widens the result)"""
+        dt = self.dtype
+        if isinstance(o, (SArr, np.ndarray)) and np.dtype(o.dtype).kind in "iuf":
+            dt = np.result_type(dt, o.dtype)
+        r = self._ew(o, f, dt)
+        if narrow(dt):
+            for idx in np.ndindex(*r.c.shape):
+                r.c[idx] = wrap_to(r.c[idx], dt)
+        return r
+
     def __add__(self, o):
-        return self._ew(o, lambda a, b: a + b)
+        return self._arith(o, lambda a, b: a + b)
 
     __radd__ = __add__
 
     def __sub__(self, o):
-        return self._ew(o, lambda a, b: a - b)
+        return self._arith(o, lambda a, b: a - b)
 
     def __mul__(self, o):
-        return self._ew(o, lambda a, b: a * b)
+        return self._arith(o, lambda a, b: a * b)
 
     __rmul__ = __mul__
 
@@ -178,6 +213,9 @@ class SArr:
 
     def __iadd__(self, o):
         r = self._ew(o, lambda a, b: a + b)
+        if narrow(self.dtype):
+            for idx in np.ndindex(*r.c.shape):
+                r.c[idx] = wrap_to(r.c[idx], self.dtype)
         self.c[...] = r.c
         return self
 
@@ -229,9 +267,12 @@ class SArr:
             mc = np.broadcast_to(i.c, self.c.shape)
             for idx in np.ndindex(*self.c.shape):
                 new = src[idx] if src is not None else lift(v)
-                self.c[idx] = _simp(If(mc[idx], new, self.c[idx]))
+                self.c[idx] = _simp(If(mc[idx], wrap_to(new, self.dtype), self.c[idx]))
             return
         i = self._cidx(i)
+        if narrow(self.dtype):
+            self._store_narrow(i, v)
+            return
         if isinstance(v, SArr):
             self.c[i] = v.c
         elif isinstance(v, np.ndarray):
@@ -250,6 +291,26 @@ class SArr:
                 self.c[i] = fill
             else:
                 self.c[i] = lv
+
+    def _store_narrow(self, i, v):
+        """assignment into an 8/16/32-bit integer array: array values wrap (numpy casts them 'unsafe')"""
+        tgt = self.c[i]
+        if isinstance(v, SArr):
+            src = v.c
+        elif isinstance(v, np.ndarray):
+            src = np.empty(v.shape, dtype=object)
+            for idx in np.ndindex(*v.shape):
+                src[idx] = lift(v[idx])
+        else:
+            src = lift(v)
+        if isinstance(tgt, np.ndarray):
+            out = np.empty(tgt.shape, dtype=object)
+            bs = np.broadcast_to(src, tgt.shape) if isinstance(src, np.ndarray) else None
+            for idx in np.ndindex(*tgt.shape):
+                out[idx] = wrap_to(bs[idx] if bs is not None else src, self.dtype)
+            self.c[i] = out
+        else:
+            self.c[i] = wrap_to(src if not isinstance(src, np.ndarray) else src.item(), self.dtype)
 
     def __iter__(self):
         for k in range(self.c.shape[0]):
@@ -357,7 +418,7 @@ class _Masked:
     def __iadd__(self, o):
         oe = lift(o)
         for idx in np.ndindex(*self.vals.shape):
-            self.vals[idx] = self.vals[idx] + oe
+            self.vals[idx] = wrap_to(self.vals[idx] + oe, self.arr.dtype)
         return self
 
     def concretize(self):
